@@ -21,7 +21,7 @@
 //   EV <events of A>        a<class><r|w> = acquire, r<class> = release, e.g. astorer adbw aexfr rexf ...
 //   <tid> <inv> <res> <kind> <db> <key> <value> <answer>     (tid 0 = A, 1 = B)
 //   FINAL <d> <dump>   (d = 3+i: metadata of database i)   REOPEN <d> <dump>   BACKUP <d> <dump>
-//   ALLOC <n>          allocated data blocks of the file after the run
+//   ALLOC <n>          allocated data blocks of the file after the run (only with `p` operations)
 //   MAPDIFF <n> <first> <last> <bytes before> <bytes after>   WAL mode: n bytes of the mapping at rest are not what the
 //                      file plus the log hold (they change when a checkpoint replaces the mapping)
 //   END <k>
@@ -448,7 +448,7 @@ static int one_run(int k) {
   if (have_b) print_call(1, &bop);
   for (int i = 0; i < npops; ++i) { free(pops[i].ans); pops[i].ans = 0; do_op(&pops[i]); print_call(2, &pops[i]); }
   dump_all("FINAL");
-  { // allocated blocks of the file (space accounting: a page that no operation can reach any more stays counted)
+  if (npops) { // allocated blocks of the file (space accounting: a page that no operation can reach any more stays counted)
     IWFS_FSM_STATE s2; long na = 0;
     iwkv_state(kv, &s2);
     off_t bs = (off_t) s2.block_size;
